@@ -64,10 +64,17 @@ def resolve_sites(ctx):
     for f in ctx.repo.all_functions():
         if not f.module.name.startswith('rsocket.') or f.module.name.startswith('rsocket.cli'):
             continue
+        called = set()
         for n in walk_local(f.node):
             if isinstance(n, ast.Call) and isinstance(n.func, ast.Attribute) and \
                     n.func.attr in ('set_result', 'set_exception') and isinstance(n.func.value, ast.Attribute) and \
                     n.func.value.attr in attrs:
+                out.append((f, n))
+                called.add(id(n.func))
+        # the method taken as a value (`resolver = self._future.set_result`, or passed to a helper) and called later
+        for n in walk_local(f.node):
+            if isinstance(n, ast.Attribute) and id(n) not in called and n.attr in ('set_result', 'set_exception') and \
+                    isinstance(n.value, ast.Attribute) and n.value.attr in attrs and isinstance(n.ctx, ast.Load):
                 out.append((f, n))
     return out
 
@@ -92,12 +99,19 @@ def check_guarded_resolve(ctx, rule, only_module=None, skip_module=None):
             classes = classes[:1] if f.cls.is_subclass_of(ctx.slots.StreamHandler) else classes
         for n in nodes:
             verdicts = []
+            as_value = isinstance(n, ast.Attribute)
             for c in classes:
-                for p in ctx.paths(f, c, exc=(), inline_depth=2):
+                for p in ctx.paths(f, c, exc=(), inline_depth=3 if as_value else 2):
                     for e in p.events:
-                        if e.kind == 'call' and e.node is n and e.depth == 1:
+                        if not as_value and e.kind == 'call' and e.node is n and e.depth == 1:
                             verdicts.append(_guarded(p, e))
-            construct = '%s / %s.%s' % (f.short, ast.unparse(n.func.value), n.func.attr)
+                        elif as_value and e.kind == 'call' and e.data.get('name') == n.attr and \
+                                e.data.get('callee', {}).get('bound') and e.data.get('recv') is not None and \
+                                strip_epoch(e.data['recv'].term)[0] == 'attr' and \
+                                strip_epoch(e.data['recv'].term)[2] == n.value.attr:
+                            verdicts.append(_guarded(p, e))
+            fn = n if as_value else n.func
+            construct = '%s / %s.%s' % (f.short, ast.unparse(fn.value), fn.attr)
             if not verdicts:
                 rep.note('%s: site %s not reached on any enumerated path' % (rule, construct))
                 continue
